@@ -108,7 +108,10 @@ func expSigned(b, e, n *big.Int) *big.Int {
 
 func intcomMessages(k *intcomKey) []*big.Int {
 	b256 := new(big.Int).Sub(new(big.Int).Lsh(bi(1), 256), bi(1)) // 2^256-1: larger than the group order for the small moduli
-	return []*big.Int{bi(0), bi(1), bi(-1), b256, new(big.Int).Neg(b256), newStream("intcom/msg").bigBelow(new(big.Int).Lsh(bi(1), 64))}
+	// N and 1-2N: distinct integers that are congruent to 0 / 1 modulo the commitment modulus (boundary of the message space:
+	// integer commitments commit to INTEGERS, not residues)
+	return []*big.Int{bi(0), bi(1), bi(-1), b256, new(big.Int).Neg(b256), newStream("intcom/msg").bigBelow(new(big.Int).Lsh(bi(1), 64)),
+		new(big.Int).Set(k.n), new(big.Int).Sub(bi(1), new(big.Int).Lsh(k.n, 1))}
 }
 
 // intcomWitnesses: 0, ±1, both ends of the sampling range [-N·2^80, N·2^80), and one value from SampleWitness.
